@@ -485,6 +485,15 @@ def run_shard(desc, ctx):
     hook = ContextHook().install()
     try:
         if desc["kind"] == "random":
+            # a heat-map style table with several hundred different colours (more than fit into one byte)
+            names = rng.sample(G.colors(), rng.choice([200, 256, 257, 300, 400]))
+            n, nc = len(names) // 10, 10
+            big = {"kind": "table", "df": tagged_df(n, nc), "colheader": "none", "title": None,
+                   "page": {"nrow": n + 10},
+                   "body": {"text_color": [names[r * nc:(r + 1) * nc] for r in range(n)],
+                            "text_background_color": [list(reversed(names[r * nc:(r + 1) * nc])) for r in range(n)]}}
+            ctx.count("documents_with_200+_colours")
+            check_spec(ctx, big, hook)
             for _ in range(desc["n"]):
                 r = rng.random()
                 if r < 0.5:
